@@ -319,11 +319,13 @@ func (s *Scope) buildStructLike(cu *CodeUtils, v *parser.StructLike, usedName ..
 	fids := "fieldIDToName_" + sn
 	s.globals.MustReserve(fids, _p("ids:"+nn))
 
-	// built-in methods
-	funcs := []string{"Read", "Write", "String"}
+	// built-in methods: every method the templates declare for a struct-like must be reserved here,
+	// otherwise a field that is identified alike (e.g. init_default) collides with it.
+	funcs := []string{"Read", "Write", "String", "InitDefault"}
+	funcs = append(funcs, cu.extraMethods...)
 	if !strings.HasPrefix(v.Name, prefix) {
 		if v.Category == "union" {
-			funcs = append(funcs, "CountSetFields")
+			funcs = append(funcs, "CountSetFields", "CountSetFields"+sn)
 		}
 		if v.Category == "exception" {
 			funcs = append(funcs, "Error")
@@ -333,6 +335,12 @@ func (s *Scope) buildStructLike(cu *CodeUtils, v *parser.StructLike, usedName ..
 		}
 		if cu.Features().GenDeepEqual {
 			funcs = append(funcs, "DeepEqual")
+		}
+		if cu.Features().WithFieldMask {
+			funcs = append(funcs, "Get_FieldMask", "Set_FieldMask")
+			if cu.Features().FieldMaskHalfway {
+				funcs = append(funcs, "Pass_FieldMask")
+			}
 		}
 	}
 
